@@ -203,25 +203,37 @@ def showInt : Int → Text
   | .ofNat n => showNat n
   | .negSucc n => 45 :: showNat (n + 1)
 
-/-- digits with single `_` between digits (the body of a Python integer literal) -/
+/-- `Py_UNICODE_TODECIMAL`: the value of a decimal digit of any script (Unicode category Nd); the generated
+    table `decimalZeros` lists the zero of every run of ten -/
+def digitVal? (c : Nat) : Option Nat :=
+  (decimalZeros.find? (fun z => z ≤ c && c < z + 10)).map (fun z => c - z)
+
+def isPyDigit (c : Nat) : Bool := (digitVal? c).isSome
+
+/-- digits (of any script, mixed freely) with single `_` between digits: the body of a Python integer literal
+    as the builtin `int()` reads it -/
 def pyNatGo : Text → Nat → Option Nat
   | [], acc => some acc
   | c :: rest, acc =>
-    if isDigit c then pyNatGo rest (acc * 10 + (c - 48))
-    else if c = 95 then
-      match rest with
-      | d :: _ => if isDigit d then pyNatGo rest acc else none
-      | [] => none
-    else none
+    match digitVal? c with
+    | some d => pyNatGo rest (acc * 10 + d)
+    | none =>
+      if c = 95 then
+        match rest with
+        | d :: _ => if isPyDigit d then pyNatGo rest acc else none
+        | [] => none
+      else none
 
 def pyNat? : Text → Option Nat
   | [] => none
-  | c :: rest => if isDigit c then pyNatGo (c :: rest) 0 else none
+  | c :: rest => if isPyDigit c then pyNatGo (c :: rest) 0 else none
 
-def isPySpace (c : Nat) : Bool := c == 32 || (9 ≤ c && c ≤ 13)
+/-- what `int()` strips: ASCII `\t\n\v\f\r` and space, and every non-ASCII `str.isspace()` character
+    (generated table; U+001C-U+001F are not in it) -/
+def isPySpace (c : Nat) : Bool := intSpaces.contains c
 
-/-- `int(s)` for an ASCII `s` (`none` = ValueError): surrounding white space, one sign, digits with
-    single underscores -/
+/-- `int(s)` (`none` = ValueError): surrounding white space, one ASCII sign, decimal digits of any script with
+    single underscores.  (The interpreter's limit on the number of digits is outside the model.) -/
 def pyInt? (s : Text) : Option Int :=
   match ((s.dropWhile isPySpace).reverse.dropWhile isPySpace).reverse with
   | 43 :: r => (pyNat? r).map Int.ofNat
